@@ -20,6 +20,7 @@ LEVEL_TEXT = ('static: ordering/pairing of control-group creation, slot accounti
 LEVEL_NOTE = 'slot arithmetic over runtime defaults and reshape_like on nested defaults are not decided'
 LEVEL_TEXT_ADD = ' Also: fresh copy of the defaults per variant, metadata defaults, and the or-default rule over synthdef.py (only None means not given).'
 LEVEL_TEXT_ADD += ' Rounds e-f: one lag per slot (the only growth of the lag list is the wrap-extension to the slot count).'
+LEVEL_TEXT_ADD += ' Round i: the running control index and the value list are reset only where a build starts and only grow afterwards.'
 LEVEL_TEXT = (globals().get('LEVEL_TEXT') or EXPLANATION) + LEVEL_TEXT_ADD
 TECHNIQUE = 'static analysis: statement-order/effect checks and decision-table extraction on SynthDef control building'
 
